@@ -25,16 +25,23 @@ ASSUMPTIONS = [
 ]
 REQUIRED_CLASSES = ["nontrivial", "ok_query", "no_ok_query", "command", "empties=100", "empties>=1",
                     "fault_silence", "fault_errline", "fault_raise_write", "fault_raise_read", "no_port",
-                    "lowercase_no_ok", "first_read_empty", "fault_after_data_line", "fault_before_data_line"]
+                    "lowercase_no_ok", "first_read_empty", "fault_after_data_line", "fault_before_data_line",
+                    "request_longer_than_64_bytes", "data_line_begins_with_OK"]
 QUICK_SHARDS = 4
 
 ebb_serial = sut.load("ebb_serial")
 
-OK_QUERIES = ["QS\r", "QB\r", "QP\r", "QL\r", "QC\r", "QT\r", "QN\r", "QR\r", "QU,1\r", "qs\r", "QL,3\r"]
+OK_QUERIES = ["QS\r", "QB\r", "QP\r", "QL\r", "QC\r", "QT\r", "QT\r", "QT\r", "QN\r", "QR\r", "QU,1\r", "qs\r",
+              "QL,3\r"]
 NOOK_QUERIES = ["A\r", "I\r", "MR\r", "PI,B,3\r", "QM\r", "QG\r", "V\r", "a\r", "i\r", "mr\r", "pi,c,1\r",
                 "qm\r", "qg\r", "v\r", "PI,E,0\r", " V\r"]
 COMMANDS = ["EM,1,1\r", "SM,100,10,-10\r", "SP,1,100\r", "TP\r", "SC,4,12000\r", "SL,5\r", "XM,10,1,1\r",
-            "CS\r", "RB\r", "PO,B,3,1\r", " EM,0,0\r", "SM,10,0,0\r\n"]
+            "CS\r", "RB\r", "PO,B,3,1\r", " EM,0,0\r", "SM,10,0,0\r\n",
+            # full-range requests are longer than a 64-byte USB packet; still one write
+            "LM,2147483647,-2147483647,-2147483647,2147483647,2147483647,-2147483647,3\r",
+            "LM,-2147483647,2147483647,2147483647,-2147483647,-2147483647,2147483647\r",
+            "T3,4294967295,-2147483647,2147483647,-2147483647,2147483647,-2147483647,2147483647,3\r",
+            "SM,16777215,-8388607,8388607\r", "ST,0123456789abcdef\r"]
 
 
 class Sim:
@@ -140,8 +147,12 @@ class Sim:
             port.faults.clear()
         # conforming step: the reply belongs to this request and nothing is left behind
         data_lines = [l for l in produced if l != b""]
+        if len(text) > 64:
+            self.flags.add("request_longer_than_64_bytes")
         if is_query:
             expected = data_lines[0].decode("ascii") if data_lines else ""
+            if expected.startswith("OK"):
+                self.flags.add("data_line_begins_with_OK")
             if result != expected:
                 self.fail("%s returned %r; the board's reply to this request was %r"
                           % (what, result, expected))
